@@ -187,6 +187,7 @@ func (i *interpreter) chanSend(c *chanv, v value) {
 	if c == nil {
 		panic(blockEvent{"send on nil channel", c})
 	}
+	i.maybePreemptSync()
 	if c.closed {
 		panic(runtimePanic{"send on closed channel"})
 	}
@@ -194,12 +195,14 @@ func (i *interpreter) chanSend(c *chanv, v value) {
 		// rendezvous slot only between interpreted goroutines
 		c.async = len(i.gors) > 1
 	}
-	i.blockUntil(func() bool {
-		if c.closed {
-			panic(runtimePanic{"send on closed channel"})
-		}
-		return c.canSend()
-	}, "send", c)
+	i.blockedOn(func() bool { return c.closed || c.canSend() }, func() {
+		i.blockUntil(func() bool {
+			if c.closed {
+				panic(runtimePanic{"send on closed channel"})
+			}
+			return c.canSend()
+		}, "send", c)
+	})
 	if c.peer {
 		return // a concurrent peer (declared by the harness) takes the value
 	}
@@ -217,6 +220,12 @@ func (i *interpreter) chanRecv(c *chanv, elem types.Type) (value, bool) {
 	var v value
 	ok := false
 	timerFired := false
+	i.maybePreemptSync()
+	me := i.curG
+	me.timerWait = c.timer
+	defer func() { me.timerWait = false }()
+	me.waitReady = func() bool { return len(c.buf) > 0 || c.closed }
+	defer func() { me.waitReady = nil }()
 	i.blockUntilOr(func() bool {
 		if len(c.buf) > 0 {
 			old := c.buf
@@ -246,9 +255,11 @@ func (i *interpreter) chanClose(c *chanv) {
 	if c == nil {
 		panic(runtimePanic{"close of nil channel"})
 	}
+	i.maybePreemptSync()
 	if c.closed {
 		panic(runtimePanic{"close of closed channel"})
 	}
 	i.logUndo(func() { c.closed = false })
 	c.closed = true
+	i.progress++
 }
